@@ -167,9 +167,44 @@ def run_work_cb(rp, n, raise_at, marks=None):
     return [per[t['uid']] for t in things], survived
 
 
+def exec_monitor(done, obs, rec, quiet):
+    """one outcome per task and a true one, judged on what the real executor handed on under a schedule
+    of its intake / watcher / cancel / timeout threads (process exits, faults and requests at any step)"""
+    outs = [r for r in rec if r[0] == 'advance' and r[2] in ('AGENT_STAGING_OUTPUT_PENDING', 'FAILED')]
+    started = any(r[0] == 'advance' and r[2] == 'AGENT_EXECUTING' for r in rec)
+    if len(outs) > 1:
+        return ('executor:task-gets-two-outcomes', 'handed on as %s' % [(r[2], r[4], r[5]) for r in outs])
+    if quiet and started and not outs:
+        return ('executor:task-gets-no-outcome', 'accepted task never handed on')
+    asked = any(c in ('cancel_req', 'timeout') for c in done)
+    for r in outs:
+        if r[2] == 'AGENT_STAGING_OUTPUT_PENDING':
+            if r[4] == 'CANCELED' and not asked:
+                return ('executor:CANCELED-without-request', str(r))
+            if r[4] == 'DONE' and r[5] != 0:
+                return ('executor:DONE-with-nonzero-exit', str(r))
+            if r[4] == 'FAILED' and r[5] in (0, None):
+                return ('executor:FAILED-without-exit-code', str(r))
+    return None
+
+
+def exec_part(ctx, rp):
+    from props import c07
+    n = 0
+    for cs in [c07.gen_schedule(ctx.rng) for _ in range(ctx.n(250, 8000))]:
+        obs, done, rec, quiet = c07.run_schedule(rp, cs)
+        bad = exec_monitor(done, obs, rec, quiet)
+        n += 1
+        ctx.case({'exec_schedule': done}, nontrivial=any(c in ('cancel_req', 'timeout') for c in done))
+        if bad:
+            ctx.fail(bad[0], bad[1], {'kind': 'exec', 'choices': done}, observed=obs[-1] if obs else None)
+    ctx.obligation('executor under %d thread schedules: every accepted task is handed on once, with a true outcome' % n, 'tie', True, '')
+
+
 def run(ctx):
     rp  = rpload.load()
     rng = ctx.rng
+    exec_part(ctx, rp)
     ops, impl = [], []
     dist = {'bulks': 0, 'tasks': 0, 'final': {}, 'faulty': 0}
     bulks = [list(b) for b in CORPUS] + [[gen_plan(rng) for _ in range(rng.choice([1, 2, 3, 5]))] for _ in range(ctx.n(45, 2000))]
@@ -255,6 +290,12 @@ CORPUS = [
 def replay(ctx, data):
     rp = rpload.load()
     i = data['input']
+    if i['kind'] == 'exec':
+        from props import c07
+        obs, done, rec, quiet = c07.run_schedule(rp, i['choices'])
+        bad = exec_monitor(done, obs, rec, quiet)
+        print(obs[-1] if obs else None, bad)
+        return bad is None
     if i['kind'] == 'bulk':
         bus, uids = run_bulk(rp, i['plans'])
         bad = monitor(rp, i['plans'], bus, uids, ctx.rng)
